@@ -20,7 +20,7 @@ VerdictF(ev) ==
   ELSE OK
 \* tolerance decided by the spec: a call over fewer objects whose path axis is shorter does not tile the same paths (tiling rebuilds the
 \* orientation and re-normalises its quaternions: inputs re-derived, 1e-8); every other form evaluates bit-identical inputs (1e-12)
-FormTol(ev) == IF ev.form \in {"src_method", "sens_method"} /\ ev.malt < Len(ev.T[1]) THEN TolRederived ELSE TolSame
+FormTol(ev) == IF ev.form \in {"src_method", "sens_method", "sens_method_sumup"} /\ ev.malt < Len(ev.T[1]) THEN TolRederived ELSE TolSame
 VerdictForm(ev) ==
   IF ev.outcome # "ok" THEN <<"C07", "FormRejected">>
   ELSE IF ev.malt < 1 \/ ev.malt > Len(ev.T[1]) THEN <<"C07", "FormPathLength">>
